@@ -230,7 +230,7 @@ def search():
                 return n, dict(problem=p)
     for outcome in OUTCOMES:
         for duration in (0.0, 0.5, 1.0, 2.0):
-            for tmo in (0.5, 1.0, 3.0):
+            for tmo in (0, 0.0, 0.5, 1.0, 3.0):
                 for cancel_at in (None, 0.0, 0.25, 0.75, 1.5, 9.0, "with-completion", "turns:0", "turns:1", "turns:2", "turns:3"):
                     n += 1
                     p = run_case(duration, outcome, tmo, cancel_at)
